@@ -180,7 +180,7 @@ var charset = []string{"-", "%", "*", ";", ":", " ", "a", "B", "1", "\r", "\n"}
 func TestC16(t *testing.T) {
 	s := explore.NewSuite(t, "C16", "exploration",
 		"(parse) every string of length <= L (5 quick, 6 thorough) over the 11-symbol alphabet {- % * ; : SP a B 1 CR LF} through header.ParseHeader: accepted rules must be legal (token name, no CR/LF in value), round-trip through String(), and strings of the strict rule grammar must be accepted with the documented meaning; "+
-			"(apply) every ordered list of <= 3 (quick) / 4 (thorough) rules from a 17-rule alphabet applied to each of 8 header maps (repeated fields, names differing only in case), compared step by step with a reference on a case-insensitive multimap; "+
+			"(apply) every ordered list of <= 3 (quick) / 4 (thorough) rules from a 17-rule alphabet applied to each of 8 header maps (repeated fields, names differing only in case), with rule objects parsed afresh and with rule objects that were already applied to another message, compared step by step with a reference on a case-insensitive multimap; "+
 			"(dispatch) every assignment of rule lists to --header/--connect-header/--response-header through the real modifier wiring of command/run x message kind; non-trivial = at least one comparison with the reference was made")
 	s.Assume = []string{"net/http.CanonicalHeaderKey is trusted", "header maps are Go http.Header values; order between differently-spelt keys of one name is not observable"}
 
@@ -291,6 +291,10 @@ func TestC16(t *testing.T) {
 			maps := initialMaps()
 			hm := maps[x.ChooseFree("map", len(maps))]
 			n := 1 + x.ChooseFree("len-1", maxLen)
+			// rule objects are parsed afresh for every execution; "used before": each rule object has already
+			// been applied to another message (a rule must not remember anything from one message to the next)
+			usedBefore := x.ChooseFree("rule-objects-used-before", 2) == 1
+			other := initialMaps()[(len(hm)+3)%len(maps)]
 			ref := refFrom(hm)
 			x.Logf("initial map %v", hm)
 			if d := ref.compare(hm, ""); d != "" {
@@ -313,7 +317,15 @@ func TestC16(t *testing.T) {
 				}
 				sameAsCanon := r.name == http.CanonicalHeaderKey(r.name)
 				applied = append(applied, ruleStrings[ri])
-				(&parsed[ri]).Apply(hm)
+				rule, err := header.ParseHeader(ruleStrings[ri])
+				if err != nil {
+					rule = parsed[ri]
+				}
+				if usedBefore {
+					(&rule).Apply(other)
+					applied[len(applied)-1] += " (object used before)"
+				}
+				(&rule).Apply(hm)
 				ref.apply(r)
 				x.Logf("after %q: %v", ruleStrings[ri], hm)
 				x.Check()
